@@ -7,6 +7,7 @@ import (
 	"errors"
 	"log/slog"
 	"net"
+	"time"
 
 	"github.com/scionproto/scion/pkg/daemon"
 	"github.com/scionproto/scion/pkg/snet"
@@ -80,6 +81,16 @@ func exchangeDataQUIC(ctx context.Context, log *slog.Logger, conn *scion.QUICCon
 		return err
 	}
 	defer stream.Close()
+
+	// a server that stops talking must not block the caller beyond its deadline
+	deadline, ok := ctx.Deadline()
+	if !ok {
+		deadline = time.Now().Add(exchangeTimeout)
+	}
+	err = stream.SetDeadline(deadline)
+	if err != nil {
+		return err
+	}
 
 	var msg ExchangeMsg
 
